@@ -136,7 +136,7 @@ Print Assumptions C03_no_reply_refuted.
 (* zero credits hold the semaphore until the opcode-0 flow-control event *)
 Theorem C03_zero_credit_refuted :
   let s := run h_init [Call 1 3075; Call 2 4099; Acquire 1; CtrlReply true 0; Deliver; Resume 1] in
-  quiescent s = true /\ all_answered s = false /\ h_sem s = true /\
+  quiescent s = true /\ all_answered s = false /\ h_sem s = 0 /\
   all_answered (run s [CtrlEvent true 0 1; Deliver; Acquire 2; CtrlReply true 1; Deliver; Resume 2]) = true.
 Proof. exact zero_credit_refuted. Qed.
 Print Assumptions C03_zero_credit_refuted.
